@@ -1,5 +1,6 @@
 import TlxVerif.Proofs.C14Digest
 import TlxVerif.Proofs.C14SipHash
+import TlxVerif.Proofs.C14Constants
 /-!
 # C14 — digests and SipHash equal their standards for every message and every chunking
 
@@ -14,6 +15,8 @@ Structure of the argument for the four digest classes (details in `Proofs/C14*.l
    SHA-1 loops with inline constants, SHA-256 with a rotating array, SHA-512 with unrolled
    rotated arguments) equals the compression function of RFC 1321 / FIPS 180-4; the tables
    are regenerated from the sources and compared with the standards' tables (`*_tables`).
+   `Proofs/C14Constants.lean` shows that the SHA-2 tables of the specification are the
+   cube / square root fractions FIPS 180-4 defines them to be.
 3. here: padding and output forms, giving `md5_correct`, `sha1_correct`, `sha256_correct`,
    `sha512_correct`.
 -/
